@@ -15,7 +15,7 @@ cd $wt || exit 2
 git checkout -q -- . ; git clean -q -fd -e OUT -e target >/dev/null 2>&1
 head=$(git rev-parse --short HEAD)
 repo_head=$(git -C /repo rev-parse --short HEAD)
-cp $out/demo.rs tests/seed_demo.rs
+mkdir -p tests; cp $out/demo.rs tests/seed_demo.rs
 cargo test --offline --test seed_demo >/tmp/seedkit/$prop$v.clean.log 2>&1; demo_clean=$?
 git apply --check $out/patch.diff; applies=$?
 git apply $out/patch.diff
